@@ -333,6 +333,47 @@ display_case!(render_display_matches_io_s2, 2);
 display_case!(render_display_matches_io_s3, 3);
 display_case!(render_display_matches_io_s4, 4);
 
+/// `Style::render_reset()` under sixteen CONCRETE width / precision combinations: exactly the
+/// reset sequence for a non-plain style and nothing for the plain one — no padding, no truncation.
+/// (The display harnesses above are complete in the flags on the current tree, where the value
+/// ignores them; on a tree where it does not, symbolic width / precision drive std's padding and
+/// truncation loops and CBMC does not finish — undecided.  This concrete twin then still decides.)
+fn reset_under(width: Option<u16>, precision: Option<u16>, plain: bool) {
+    let mut o = core::fmt::FormattingOptions::new();
+    o.fill('*');
+    o.align(Some(core::fmt::Alignment::Right));
+    o.width(width);
+    o.precision(precision);
+    let style = if plain { Style::new() } else { Style::new().bold() };
+    let mut d: Buf<24> = Buf::new();
+    {
+        let mut f = core::fmt::Formatter::new(&mut d, o);
+        let _ = core::fmt::Display::fmt(&style.render_reset(), &mut f);
+    }
+    if plain {
+        assert!(d.len == 0, "the reset of a plain style is empty whatever the format flags");
+    } else {
+        assert!(d.len == 4 && d.b[0] == 0x1b && d.b[1] == b'[' && d.b[2] == b'0' && d.b[3] == b'm', "the reset of a non-plain style is exactly the reset sequence whatever the format flags: no padding, no truncation");
+    }
+}
+
+#[cfg_attr(kani, kani::proof, kani::unwind(16))]
+#[cfg_attr(not(kani), test)]
+fn render_style_reset_small_flags() {
+    let ws = [None, Some(0u16), Some(3), Some(10)];
+    let ps = [None, Some(0u16), Some(1), Some(10)];
+    let mut i = 0;
+    while i < 4 {
+        let mut j = 0;
+        while j < 4 {
+            reset_under(ws[i], ps[j], false);
+            j += 1;
+        }
+        reset_under(ws[i], None, true);
+        i += 1;
+    }
+}
+
 /// Reset renders a reset
 #[cfg_attr(kani, kani::proof, kani::unwind(16))]
 #[cfg_attr(not(kani), test)]
